@@ -212,9 +212,11 @@ theorem declLocals_exec (w : World) : ∀ (ls : List Ty) (n : Nat) (z : Zeros) (
 theorem entryParams_eq (f : Fn) :
     entryParams f = (0, .i64) :: (1, .i64) :: (f.params.zipIdx 0).map (fun p => (p.2 + 2, p.1)) := rfl
 
-theorem lower_refines (f : Fn) (hwt : wellTyped f = true) (args : List Nat) (hargs : ArgsOK f args)
+theorem lower_refines_full (f : Fn) (hwt : wellTyped f = true) (args : List Nat) (hargs : ArgsOK f args)
     (w : World) (ec mc : Nat) (fuel n : Nat) (hn : f.body.length + 3 ≤ n) :
-    run w (lowerSL f) (ec :: mc :: args) (fuel + 1) = ofSpec (runSpec f args n) := by
+    run w (lowerSL f) (ec :: mc :: args) (fuel + 1) = ofSpec (runSpec f args n) ∧
+    ofSsa (run w (lowerSL f) (ec :: mc :: args) (fuel + 1)) = runSpec f args n ∧
+    runSpec f args n ≠ .exhausted := by
   obtain ⟨hlen, hrange⟩ := hargs
   -- the environment at the entry of the block
   let e0 : Val → Nat := upd (upd (fun _ => 0) 0 (norm .i64 ec)) 1 (norm .i64 mc)
@@ -307,11 +309,11 @@ theorem lower_refines (f : Fn) (hwt : wellTyped f = true) (args : List Nat) (har
   | next =>
     obtain ⟨env', ho⟩ := hrel
     rw [ho]
-    simp only [ofSpec, mk, List.take_take, Nat.min_self]
+    simp only [ofSpec, ofSsa, mk, List.take_take, Nat.min_self, ne_eq, reduceCtorEq, not_false_eq_true, and_self]
   | ret =>
     obtain ⟨env', ho⟩ := hrel
     rw [ho]
-    simp only [ofSpec, mk, List.take_take, Nat.min_self]
+    simp only [ofSpec, ofSsa, mk, List.take_take, Nat.min_self, ne_eq, reduceCtorEq, not_false_eq_true, and_self]
   | br l => exact absurd hrel (by simp [BodyRel])
   | exhausted => exact absurd hrel (by simp [BodyRel])
   | trap kd =>
@@ -320,5 +322,11 @@ theorem lower_refines (f : Fn) (hwt : wellTyped f = true) (args : List Nat) (har
     have : trapCode (trapKind code) = code := by
       rcases hcode with rfl | rfl <;> decide
     rw [ho]
-    simp only [ofSpec, mk, this]
+    simp only [ofSpec, ofSsa, mk, this, ne_eq, reduceCtorEq, not_false_eq_true, and_self]
+
+theorem lower_refines (f : Fn) (hwt : wellTyped f = true) (args : List Nat) (hargs : ArgsOK f args)
+    (w : World) (ec mc : Nat) (fuel n : Nat) (hn : f.body.length + 3 ≤ n) :
+    run w (lowerSL f) (ec :: mc :: args) (fuel + 1) = ofSpec (runSpec f args n) :=
+  (lower_refines_full f hwt args hargs w ec mc fuel n hn).1
+
 end Wz.Proofs.Front
